@@ -1587,10 +1587,15 @@ func (tx *Transaction) AuditLog() *auditlog.Log {
 		case types.AuditLogPartRequestBody:
 			reader, err := tx.requestBodyBuffer.Reader()
 			if err == nil {
-				content, err := io.ReadAll(reader)
+				var content []byte
+				content, err = io.ReadAll(reader)
 				if err == nil {
 					al.Transaction_.Request_.Body_ = string(content)
 				}
+			}
+			if err != nil {
+				// the record goes out without the body: say why instead of dropping it silently
+				tx.debugLogger.Error().Err(err).Msg("Failed to read the request body for the audit log")
 			}
 
 			// Note: Part I is a replacement for Part C that logs a fake
